@@ -22,7 +22,6 @@ import uuid
 
 from hypothesis import strategies as st
 
-import forml
 from forml import flow  # noqa: F401  pylint: disable=unused-import  (pre-imported for the forked children)
 from forml import project as prj
 from forml.io import asset
